@@ -400,6 +400,7 @@ func runC05(c *Ctx) {
 	checkPassphraseChange(c, "C05-R3")
 	checkSaltedHash(c, "C05-R3")
 	checkAccountWithoutPrivateKey(c, "C05-R3")
+	checkPendingDerivationsHaveAccounts(c, "C05-R3")
 }
 
 // inferHolders: struct fields of waddrmgr types that receive decrypted or private-key material.
